@@ -65,8 +65,13 @@ class Acc:
                 self.incomplete.append("[%s] %s" % (job, o.get("s", "")))
 
 
+import threading
+_fill_lock = threading.Lock()
+_fill_turn = 0
+
+
 def run_harness(exe, args, acc, job, timeout=600, env=None, cwd=None, crash_prop=None, crash_sig="crash",
-                ok_codes=(0,), stdin=None, stall=150):
+                ok_codes=(0,), stdin=None, stall=150, fill=None):
     """runs one harness process; harness results come through VERIF_OUT; a crash becomes a violation of
     crash_prop attributed to the harness' last progress record (or an EngineError if crash_prop is None).
     stall: a harness that publishes progress records (one per transition / input) and whose record does not change for that many
@@ -78,6 +83,14 @@ def run_harness(exe, args, acc, job, timeout=600, env=None, cwd=None, crash_prop
     fd, logp = tempfile.mkstemp(prefix="log_", dir=SCRATCH); os.close(fd)
     e = dict(os.environ)
     e.update(ASAN_ENV)
+    # heap fill pattern of the sanitizer run-time: 0xA5 or its complement 0x5A, alternating from one job of the run to the next, so that over the jobs of a check every bit of a field
+    # that was never assigned reads as 1 somewhere (a one-bit flag left unassigned is invisible to a single pattern in which its bit is 0)
+    global _fill_turn
+    with _fill_lock:
+        _fill_turn += 1
+        odd = _fill_turn % 2 if fill is None else fill
+    if odd:
+        e["ASAN_OPTIONS"] = e["ASAN_OPTIONS"].replace("malloc_fill_byte=165", "malloc_fill_byte=90")
     if env:
         e.update(env)
     e["VERIF_OUT"] = outp
